@@ -62,6 +62,8 @@ def run(ctx):
     # nested / embedded content with alignment arguments above the 512 byte padding block (embed_buffer align 1024, block_align 1024..32768 of
     # embed_buffer and of a nested start_buffer, a vector aligned to 1024 inside a nested buffer): own harness process per script, one key
     E.align_above_512(rng, 8 if not ctx.thorough else 80, nested_only=True)
+    # the low-level bracket push_buffer_alignment / create_buffer(is_nested) / pop_buffer_alignment for nested struct roots aligned 8..256
+    E.push_pop_alignment(rng, 30 if not ctx.thorough else 300)
     # nested root types declared in an INCLUDED schema file with its own file_identifier, through every generated nested-root builder
     from . import c15_incl
     c15_incl.run(ctx)
